@@ -925,10 +925,58 @@ func v2genMap(r *Rng, klen int) (l []v2kv) {
 	return
 }
 
-func v2genProps(r *Rng, low int) (l []psetv2.ProprietaryData) {
-	for n := r.Pick(1, 1, 2); n > 0; n-- {
-		l = append(l, psetv2.ProprietaryData{Identifier: []byte("pset"), Subtype: uint8(low + r.Intn(256-low)),
-			KeyData: r.Bytes(r.Pick(0, 0, 1, 33)), Value: r.Bytes(r.Pick(0, 1, 20))})
+// identifiers that are near misses of the magic "pset" (shorter, longer, other case, a byte appended)
+// and unrelated ones: the decoders must treat all of them as foreign, whatever the subtype
+func v2nearMissID(r *Rng) []byte {
+	switch r.Intn(10) {
+	case 0:
+		return []byte("pse")
+	case 1:
+		return []byte("psetX")
+	case 2:
+		return []byte("pset\x00")
+	case 3:
+		return []byte("PSET")
+	case 4:
+		return []byte("psetv2")
+	case 5:
+		return []byte("pset\xff")
+	case 6:
+		return append([]byte("pset"), r.Bytes(1+r.Intn(24))...)
+	case 7:
+		return []byte("p")
+	case 8:
+		return []byte("foo")
+	}
+	return r.Bytes(1 + r.Intn(6))
+}
+
+// a proprietary entry of a foreign identifier whose subtype is one the Elements spec defines for the
+// section (lo..hi) half of the time, with key data / value of the sizes those fields use
+func v2foreignProp(r *Rng, lo, hi int) psetv2.ProprietaryData {
+	sub := r.Intn(256)
+	if r.Bool() {
+		sub = lo + r.Intn(hi-lo+1)
+	}
+	return psetv2.ProprietaryData{Identifier: v2nearMissID(r), Subtype: uint8(sub),
+		KeyData: r.Bytes(r.Pick(0, 0, 1, 32, 33)), Value: r.Bytes(r.Pick(0, 1, 4, 8, 32, 33, 40))}
+}
+
+// proprietary data of a section: "pset" entries with subtypes no field owns (from low up), an entry with
+// an empty identifier (means "pset") now and then, and foreign / near-miss entries (defined subtypes lo..hi)
+func v2genProps(r *Rng, low, lo, hi int) (l []psetv2.ProprietaryData) {
+	for n := r.Pick(1, 1, 2, 3); n > 0; n-- {
+		switch {
+		case r.Chance(45):
+			l = append(l, v2foreignProp(r, lo, hi))
+		default:
+			id := []byte("pset")
+			if r.Chance(10) {
+				id = nil
+			}
+			l = append(l, psetv2.ProprietaryData{Identifier: id, Subtype: uint8(low + r.Intn(256-low)),
+				KeyData: r.Bytes(r.Pick(0, 0, 1, 33)), Value: r.Bytes(r.Pick(0, 1, 20))})
+		}
 	}
 	return
 }
@@ -997,7 +1045,7 @@ func v2genGlobal(r *Rng, nin, nout int) *v2sec {
 		}
 	}
 	if on[9] {
-		s.props = v2genProps(r, 2)
+		s.props = v2genProps(r, 2, 0, 1)
 	}
 	if on[10] {
 		s.unks = v2genUnks(r, 0, 7, 0x0a)
@@ -1027,7 +1075,7 @@ func v2genInput(r *Rng, fix bool) *v2sec {
 		}
 	}
 	if on[n] {
-		s.props = v2genProps(r, 0x16)
+		s.props = v2genProps(r, 0x16, 0, 0x15)
 	}
 	if on[n+1] {
 		s.unks = v2genUnks(r, 9, 0x19) // 0x09 (proof-of-reserves) is not decoded by the library
@@ -1151,7 +1199,7 @@ func v2genOutput(r *Rng, fix bool) *v2sec {
 		}
 	}
 	if on[n] {
-		s.props = v2genProps(r, 0x0b)
+		s.props = v2genProps(r, 0x0b, 1, 0x0a)
 		if r.Chance(30) {
 			s.props[0].Subtype = 0 // free in the output section
 		}
@@ -1208,7 +1256,7 @@ func v2violate(r *Rng, g *v2sec, ins, outs *[]*v2sec) {
 	case (kind == 2 || kind == 3) && in != nil: // height locktime, peg-in value
 		v2genInField(r, in, 17+9*(kind-2))
 	case kind == 4: // foreign proprietary identifier
-		tgt.props = append(tgt.props, psetv2.ProprietaryData{Identifier: []byte("foo"), Subtype: uint8(r.Intn(256)), KeyData: r.Bytes(r.Intn(3)), Value: r.Bytes(4)})
+		tgt.props = append(tgt.props, v2foreignProp(r, 0, 0x15))
 	case kind == 5: // proprietary subtype owned by a field
 		sub := pick(map[rune][]int{'g': {0, 1}, 'i': {0, 1, 4, 6, 8, 9, 0x0d, 0x15}, 'o': {1, 2, 3, 6, 7, 8, 0x0a}})
 		tgt.props = append(tgt.props, psetv2.ProprietaryData{Identifier: []byte("pset"), Subtype: uint8(sub), Value: r.Bytes(r.Pick(1, 8, 32, 33))})
@@ -1503,7 +1551,9 @@ func v2mutate(r *Rng, ser []byte) []byte {
 		_, k, _ := v2rcs(ser[q.start:])
 		m[q.start+k] = byte(r.Pick(r.Intn(256), r.Intn(0x19), 0xfc, 0x15, 0x16))
 	case 11: // foreign proprietary pair
-		m = splice(q.start, q.start, v2cat(v2vs([]byte{0xfc, 3, 'f', 'o', 'o', 7}), v2vs(r.Bytes(r.Intn(6)))))
+		pd := v2foreignProp(r, 0, 0x15) // near-miss identifiers, subtypes the sections define, field-sized values
+		key := v2cat([]byte{0xfc}, v2vs(pd.Identifier), []byte{pd.Subtype}, pd.KeyData)
+		m = splice(q.start, q.start, v2cat(v2vs(key), v2vs(pd.Value)))
 	case 12: // non-canonical compact size in place of a length byte
 		at := r.Pick(q.start, q.kend)
 		m = splice(at, at+1, []byte{0xfd, 0x01, 0x00})
